@@ -88,8 +88,9 @@ def index_setup(interp, L, tag=""):
     dom = [a.w >= 0, a.left >= 0, a.mx >= 0, a.V >= 0, a.next >= 0, z3.Or(a.fe == 0, a.fe == 1), a.start >= 0,
            a.start < U62, a.cursor >= 0, a.cursor < U62, a.V < U62, a.next < U62, a.left < U62, a.mx < U62, a.w < U62,
            z3.Or(a.chunk == 0, a.chunk == 1), z3.Or(a.cont == 0, a.cont == 1)]
-    for i in range(L):
-        dom += [z3.Select(a.g, i) >= 0, z3.Select(a.g, i) < U62, z3.Select(a.b, i) >= 0, z3.Select(a.b, i) < U62]
+    if isinstance(L, int):
+        for i in range(L):
+            dom += [z3.Select(a.g, i) >= 0, z3.Select(a.g, i) < U62, z3.Select(a.b, i) >= 0, z3.Select(a.b, i) < U62]
     for c in dom:
         st.assume(c)
     return st, args, a, fn
@@ -309,3 +310,127 @@ def _samef(x, y):
     if is_conc(x) and is_conc(y):
         return x == y
     return False
+
+
+# ------------------------------------------------------------------------------------------------------------
+# Unbounded (loop-invariant) proof of the validation half: for every index_len, create_rf_data_index rejects exactly
+# the malformed block descriptions.  The invariant only talks about the checks ("all blocks before i passed, prev_* is
+# block i-1"); the sentinel/row logic of the same loop is havoced (it cannot influence a rejection).
+def _ok(g, b, V, j):
+    return z3.And(z3.Select(b, j) < V,
+                  z3.Implies(j > 0, z3.And(z3.Select(b, j - 1) < z3.Select(b, j), z3.Select(g, j - 1) < z3.Select(g, j),
+                                           z3.Select(b, j) - z3.Select(b, j - 1) <= z3.Select(g, j) - z3.Select(g, j - 1))))
+
+
+def verify_index_reject_unbounded(interp):
+    from .c_blocks import local, set_local
+    Ls = z3.Int("index_len")
+    st, args, a, fn = index_setup(interp, Ls)
+    j = z3.Int("j!wf")
+    st.assume(z3.And(Ls >= 0, Ls < (1 << 30), z3.Implies(Ls >= 1, z3.Select(a.b, 0) == 0)))
+    # type domain of the array elements
+    st.assume(z3.ForAll([j], z3.Implies(z3.And(j >= 0, j < Ls), z3.And(z3.Select(a.g, j) >= 0, z3.Select(a.g, j) < U62,
+                                                                       z3.Select(a.b, j) >= 0, z3.Select(a.b, j) < U62))))
+    orows, ostw, wobj = a._objs
+    rows0 = st.mem[orows]
+
+    def inv(it, s):
+        i = local(it, s, fn, "i")
+        pi, ps = local(it, s, fn, "prev_index"), local(it, s, fn, "prev_sample")
+        return [("range", z3.And(Z(i) >= 0, Z(i) <= Ls)),
+                ("prev", z3.Implies(Z(i) > 0, z3.And(Z(pi) == z3.Select(a.b, Z(i) - 1), Z(ps) == z3.Select(a.g, Z(i) - 1)))),
+                ("checked_prefix", z3.ForAll([j], z3.Implies(z3.And(j >= 0, j < Z(i)), _ok(a.g, a.b, a.V, j)))),
+                ("not_yet_rejected", Z(s.mem[orows]) == Z(rows0))]
+
+    def havoc(it, s):
+        for nm in ("i", "this_index", "this_sample", "prev_index", "prev_sample", "bottom_index", "top_index"):
+            set_local(it, s, fn, nm, fresh_int(nm))
+        set_local(it, s, fn, "row_count", fresh_int("row_count"))
+
+    def inv2(it, s):
+        return []
+
+    def havoc2(it, s):
+        for nm in ("i", "this_index", "this_sample", "prev_index", "prev_sample"):
+            set_local(it, s, fn, nm, fresh_int(nm))
+        set_local(it, s, fn, "rows_written", fresh_int("rows_written"))
+        for oid, v in list(s.mem.items()):
+            if isinstance(v, ArrVal) and oid.startswith("heap"):
+                s.mem[oid] = ArrVal(z3.Array("ret_havoc!%d" % len(s.pc), z3.IntSort(), z3.IntSort()), v.length, v.elem)
+    n0 = len(interp.obls)
+    paths = interp.run_function(INDEX_FN, st, args, {"overflow": "wrap", "loops": {1: {"invariant": inv, "havoc": havoc},
+                                                                                   2: {"invariant": inv2, "havoc": havoc2}}})
+    wf_all = z3.And(Ls >= 1, z3.ForAll([j], z3.Implies(z3.And(j >= 0, j < Ls), _ok(a.g, a.b, a.V, j))),
+                    z3.Implies(a.w == 0, z3.Select(a.g, 0) >= a.cursor))
+    out = []
+    for o in interp.obls[n0:]:
+        if o.kind == "inv":
+            o.label = o.label.replace(INDEX_FN + ".loop1", INDEX_FN + ".reject_unbounded.loop")
+            if ".loop2." not in o.label:
+                out.append(o)
+    for s, rv in paths:
+        interp.func = INDEX_FN
+        rows_out = s.mem[orows]
+        rejected = z3.And(Z(rows_out) == -1, B(interp.isnull(rv)) if isinstance(rv, Ptr) else False)
+        out.append(Obl("%s.reject_unbounded.iff_malformed" % INDEX_FN, INDEX_FN, fn["_line"], s.pc, rejected == z3.Not(wf_all), kind="post",
+                       meta={"L": "symbolic"}, qhyps=s.qpc))
+    del interp.obls[n0:]
+    interp.obls.extend(out)
+    return a
+
+
+def verify_global_sample_unbounded(interp):
+    """digital_rf_get_global_sample for every index_len: the result is g[j] + (w - b[j]) for the last block j that
+    starts at or before w (loop invariant: ret is the value for block i-1, and b[i-1] <= w)."""
+    from .c_blocks import local, set_local
+    name = "digital_rf_get_global_sample"
+    tu = interp.tu
+    if name not in tu.funcs:
+        raise Undecided(name + " not found")
+    fn = tu.funcs[name]
+    st = State()
+    w, V, L = z3.Int("samples_written"), z3.Int("vector_len"), z3.Int("index_len")
+    g = z3.Array("g", z3.IntSort(), z3.IntSort())
+    b = z3.Array("b", z3.IntSort(), z3.IntSort())
+    og = st.new_obj(ArrVal(g, L), "g")
+    ob = st.new_obj(ArrVal(b, L), "b")
+    j = z3.Int("j!gs")
+    st.assume(z3.And(L >= 1, L < (1 << 30), w >= 0, w < U62, z3.Select(b, 0) == 0))
+    st.assume(z3.ForAll([j], z3.Implies(z3.And(j >= 0, j < L), z3.And(z3.Select(g, j) >= 0, z3.Select(g, j) < U62, z3.Select(b, j) >= 0, z3.Select(b, j) < U62))))
+
+    def inv(it, s):
+        i = local(it, s, fn, "i")
+        r = local(it, s, fn, "ret_value")
+        return [("range", z3.And(Z(i) >= 1, Z(i) <= L)),
+                ("value_of_previous_block", z3.And(Z(r) == z3.Select(g, Z(i) - 1) + (w - z3.Select(b, Z(i) - 1)), z3.Select(b, Z(i) - 1) <= w))]
+
+    def havoc(it, s):
+        set_local(it, s, fn, "i", fresh_int("i"))
+        set_local(it, s, fn, "ret_value", fresh_int("ret_value"))
+    n0 = len(interp.obls)
+    paths = interp.run_function(name, st, [w, Ptr(og, 0), Ptr(ob, 0), L], {"overflow": "wrap", "loops": {1: {"invariant": inv, "havoc": havoc}}})
+    out = [o for o in interp.obls[n0:] if o.kind == "inv"]
+    for o in out:
+        o.label = o.label.replace(name + ".loop1", name + ".unbounded.loop")
+    for s, rv in paths:
+        # frame + result: exists the block index jj = i-1 (read from the final value of the loop variable)
+        d = None
+        def find(n):
+            nonlocal d
+            if n.get("kind") == "VarDecl" and n.get("name") == "i":
+                d = n
+            for c in n.get("inner", []) or []:
+                if c:
+                    find(c)
+        find(fn)
+        # the frame of the callee is frame_before+1
+        key = [k for k in s.env if k[1] == d["id"]]
+        iv = s.mem[s.env[key[-1]]]
+        jj = Z(iv) - 1
+        goal = z3.And(jj >= 0, jj < L, z3.Select(b, jj) <= w, z3.Or(jj == L - 1, w < z3.Select(b, jj + 1)),
+                      Z(rv) == z3.Select(g, jj) + (w - z3.Select(b, jj)))
+        out.append(Obl("%s.unbounded.returns_block_map" % name, name, fn["_line"], s.pc, goal, kind="post", qhyps=s.qpc))
+        if s.trace:
+            out.append(Obl("%s.unbounded.pure" % name, name, fn["_line"], s.pc, z3.BoolVal(False), kind="post"))
+    del interp.obls[n0:]
+    interp.obls.extend(out)
